@@ -22,6 +22,9 @@ namespace vf::env {
       char* cur_lo = nullptr;
       char* cur_hi = nullptr;
       bool alt_toggle = false;
+      constexpr std::size_t lane_base = std::size_t(1) << 32;      // the lanes of the alternating personality start 4 GiB into the arena
+      char* lane_cur[3] = { nullptr, nullptr, nullptr };
+      int lane_next = 0;
       Alloc mode = Alloc::Malloc;
       Hash hash_mode = Hash::Real;
       long long n_hash = 0;
@@ -83,7 +86,20 @@ namespace vf::env {
          if (align < 16) align = 16;
          n = (n + align - 1) & ~(align - 1);
          if (n == 0) n = align;
-         bool low = mode == Alloc::Ascending or (mode == Alloc::Alternating and (alt_toggle = not alt_toggle));
+         if (mode == Alloc::Alternating) {
+            // three lanes 1.5 GiB apart, served round-robin: consecutive nodes a < b < c with b - a and c - b below 2^31 but
+            // c - a above it (an address difference narrowed to 32 bits makes the order cyclic); every pair of consecutive
+            // allocations also gets both relative orders across the lanes
+            static_assert(arena_size >= (std::size_t(9) << 29));
+            const int l = lane_next;
+            lane_next = (lane_next + 1) % 3;
+            if (lane_cur[l] == nullptr) lane_cur[l] = arena_lo + lane_base + (std::size_t(3) << 29) * std::size_t(l);
+            auto a = (reinterpret_cast<std::uintptr_t>(lane_cur[l]) + align - 1) & ~(std::uintptr_t(align) - 1);
+            if (a + n > reinterpret_cast<std::uintptr_t>(arena_lo) + lane_base + (std::size_t(3) << 29) * std::size_t(l + 1)) { std::fprintf(stderr, "envctl: arena lane exhausted\n"); std::abort(); }
+            lane_cur[l] = reinterpret_cast<char*>(a) + n;
+            return reinterpret_cast<void*>(a);
+         }
+         bool low = mode == Alloc::Ascending;
          if (std::size_t(cur_hi - cur_lo) < n + align) {
             std::fprintf(stderr, "envctl: arena exhausted\n");
             std::abort();
@@ -161,6 +177,12 @@ namespace vf::env {
       // Give the touched pages back so that long enumerations do not accumulate resident memory.
       if (cur_lo - arena_lo > (64 << 20)) madvise(arena_lo, cur_lo - arena_lo, MADV_DONTNEED);
       if (arena_hi - cur_hi > (64 << 20)) madvise(cur_hi, arena_hi - cur_hi, MADV_DONTNEED);
+      for (int l = 0; l < 3; ++l) {
+         char* lo = arena_lo + lane_base + (std::size_t(3) << 29) * std::size_t(l);
+         if (lane_cur[l] != nullptr and lane_cur[l] - lo > (64 << 20)) madvise(lo, std::size_t(lane_cur[l] - lo), MADV_DONTNEED);
+         lane_cur[l] = nullptr;
+      }
+      lane_next = 0;
       cur_lo = arena_lo;
       cur_hi = arena_hi;
       alt_toggle = false;
